@@ -32,6 +32,8 @@ def transient_family() -> list[dict]:
         fam.append(PR.P(f"tr{k}", [PR.S("a", tasks=[PR.T("a.1", "transient", k)]), PR.S("b", ["a"])]))
     fam.append(PR.P("trnc3", [PR.S("a", tasks=[PR.T("a.1", "transientNoCtx", 3)]), PR.S("b", ["a"])]))
     # a stage verifier answering RETRY (TransientVerificationError) k times: same path as a transient error without progress
+    # a RetryableTask (total timeout 20 s, counted from ITS start) behind a task that takes 21 s of wall-clock time
+    fam.append(PR.P("retryable2", [PR.S("a", tasks=[PR.T("a.1", "sleep", 21), PR.T("a.2", "pollR", 1)]), PR.S("b", ["a"])]))
     fam.append(PR.P("vfy1", [PR.S("a", tasks=[PR.T("a.1", "verify", 1)]), PR.S("b", ["a"])]))
     fam.append(PR.P("vfy3", [PR.S("a"), PR.S("b", ["a"], tasks=[PR.T("b.1", "verify", 3)]), PR.S("c", ["b"])]))
     fam.append(PR.P("trnc12", [PR.S("a", tasks=[PR.T("a.1", "transientNoCtx", 12)]), PR.S("b", ["a"])]))
